@@ -59,6 +59,47 @@ def corpus():
     return out
 
 
+def equal_but_distinct_part(ctx):
+    """Values that compare EQUAL in Python but are different objects of different kinds (1 / True / 1.0, 0 / False, () vs a
+    NamedTuple ...) -- outside the model's value language on purpose (Base.v) and therefore decided by the oracle alone: the
+    chain A() -> x ; C(x=<default>) -> y ; D(y) -> z must end with z computed from A's value, whatever the default of x is."""
+    import asyncio
+    from hypergraph import AsyncRunner, Graph, SyncRunner
+    from hypergraph.nodes import FunctionNode
+    pairs = [(1, True), (True, 1), (0, False), (1, 1.0), (2.0, 2), (0, -0.0), (1, 2), ("a", "a"), (None, 0), ((1,), (True,)), (3, 3)]
+    n = 0
+    for (dflt, up) in pairs:
+        for runner in ("sync", "async"):
+            for order in (0, 1, 2):
+                def A(up=up):
+                    return up
+
+                def C(x=dflt):
+                    return x
+
+                def D(y):
+                    return (type(y).__name__, repr(y))
+                nodes = [FunctionNode(lambda up=up: up, name="A", output_name="x"), FunctionNode(C, name="C", output_name="y"),
+                         FunctionNode(D, name="D", output_name="z")]
+                nodes = nodes[order:] + nodes[:order]
+                case = {"family": "equal_distinct_default", "default": repr(dflt), "upstream": repr(up), "runner": runner, "node_order": order,
+                        "equal": bool(dflt == up), "same_kind": type(dflt) is type(up)}
+                try:
+                    G = Graph(nodes)
+                    res = asyncio.run(AsyncRunner().run(G, {})) if runner == "async" else SyncRunner().run(G, {})
+                    vals = dict(res.values)
+                except Exception as e:  # noqa: BLE001
+                    ctx.violation("oracle", f"chain with an upstream-fed default raised {type(e).__name__}: {e}", case=case)
+                    continue
+                n += 1
+                want = (type(up).__name__, repr(up))
+                if vals.get("z") != want or (type(vals.get("y")).__name__, repr(vals.get("y"))) != want:
+                    ctx.violation("oracle", f"A() -> x={up!r}; C(x={dflt!r}) -> y; D(y) -> z returned y={vals.get('y')!r}, z={vals.get('z')!r}; "
+                                  f"dependency-order evaluation gives y={up!r}, z={want!r}: the consumer of y was not re-run when y changed from "
+                                  f"{dflt!r} to {up!r}", case=case)
+    return n
+
+
 def run(ctx):
     N = Names()
     batch = CoqBatch("C01", engine.IMPORTS, shard=160)
@@ -102,6 +143,8 @@ def run(ctx):
         dist["unsatisfiable_nodes"] += int(len(ran) < nn)
         if nn >= 3 and any(p in produced for n in g["nodes"] for p in n["inputs"]):
             nontrivial.add(key)
+    n_eq = equal_but_distinct_part(ctx)
+    dist["equal_but_distinct_chains"] = n_eq
     res = batch.run()
     if res["error"]:
         ctx.violation("harness", res["error"])
@@ -114,7 +157,8 @@ def run(ctx):
         evaluations=len(cases), coq_checks=res["n"], distinct_nontrivial=len(nontrivial),
         rule="random layered DAGs of 1-8 nodes (fan-in/out, diamonds, 0-3 outputs, side-effect-only nodes, shared inputs), node list "
              "shuffled; parameter sources drawn from edge/run-time/bound/default incl. overlaps; both runners (async under a random completion "
-             "order); non-trivial = >=3 nodes with at least one data edge; distinct by canonical JSON",
+             "order); non-trivial = >=3 nodes with at least one data edge; distinct by canonical JSON; plus (oracle only) the chain A()->x; C(x=default)->y; D(y)->z over pairs of equal-but-distinct values "
+             "(1/True/1.0, 0/False/-0.0, ...), both runners, three node orders",
         distribution=dist, samples=[{"graph": cases[5][0]["nodes"], "run": cases[5][1]}],
         traces_validated_against_impl=len(obs_all), disagreements_checked=res["n"])
     ctx.assumptions += ["node functions are drawn from the six-case expression language of Exec.v; 'sym' returns the free term of its arguments"]
